@@ -225,6 +225,9 @@ def main(tier, seed):
             dec.report(dict(cases[i][1], kind='model-differs', theorem='correspondence cmd_corr'), no_input=True)
     for name, out in broken:
         dec.report(dict(kind='case-file-broken', file=name, detail=out), no_input=True)
+    # the same from several association threads at once: the command set a thread transmits is a function of ITS message
+    import race
+    dec.concurrent_use([race.message_ops, race.dataset_ops])
     run.keep = bool(dec.violations)
     run.cleanup()
     return dec.finish()
